@@ -96,6 +96,23 @@ CLAIMED["C04"] = (
     "DESIGN.md §4 C04",
 )
 
+CLAIMED["C10"] = (
+    "Theorem (selection_is_filter): for ANY catalogue of checks modelled as state machines with private state, any selection by "
+    "code, any number of visited nodes and any noqa/amend filter, the report with a subset enabled equals the full report filtered "
+    "to that subset — same diagnostics, same order (induction over the visit sequence + filtering commutes with stable insertion "
+    "sort, whose key order is proved total and transitive); ignoring afterwards = never enabling. Its premise — each check only "
+    "appends its own error class and shares no mutable state — is discharged for today's 93 check modules by `decide` over locality "
+    "facts regenerated from the source (3 allow-listed exceptions, justified). Tied to the code by CLI subset runs over refurb's own "
+    "idiom corpus (partition of the catalogue, singletons, complements, --ignore) and by the model's composition law evaluated on the "
+    "real reports.",
+    COMMON_NOTE
+    + "Modelled, not verified: locality is a syntactic (ast) scan, not a semantic proof about 5k lines of Python; the exceptions "
+    "(FURB120 writing Argument.initializer on typeshed defs and reading len(errors) as a delta; two shared constant tables) are "
+    "committed allow-lists in Model/Visitor.lean.",
+    "Lean 4 proof (induction; stable-sort/filter commutation; linear-order lemmas) + locality table by ast scan (decide +kernel) + CLI subset oracle",
+    "DESIGN.md §4 C10",
+)
+
 NOT_YET = "check not built yet in this round (work in progress; see DESIGN.md §8 order of work)"
 
 
